@@ -13,7 +13,7 @@ submitted to an idle interpreter that already holds a generated prelude; six dri
 succeeding programs (what a failed submission leaves there is C10's subject). Non-trivial = >=10 instructions executed and >=3 distinct feature kinds; distinct = hash of prelude+source",
     assumptions: &["the reverse log and the instruction meter are excluded, as the statement says"],
     max_len: 500,
-    quick_cases: 6_000,
+    quick_cases: 48_000,
     thorough_cases: 300_000,
     case,
     systematic: None,
